@@ -17,6 +17,14 @@
  *     D                       dbus_connection_dispatch once
  *     F                       fire due timeouts (dbus_timeout_handle) - the application's timer duty
  *     Z<us>                   usleep
+ *     A<n>,<q>                barrier without a clock: wait until n calls of the case have been sent with S (so their bytes
+ *                             are on the socket: nobody was inside a blocking wait yet), and, if q, until something is in
+ *                             the incoming queue (dbus_connection_get_dispatch_status == DATA_REMAINS: some other thread
+ *                             has started reading, i.e. a W thread's call, written before it reads, is on the socket too)
+ *     J<watch_ms>             (thread 0 only, multi-blocker cases) wait until every other thread has finished its ops;
+ *                             once the first blocking wait (B / W) of the case has returned the clock runs: a thread still
+ *                             inside its blocking wait watch_ms later is reported ({"mb_stuck":1,...}) instead of the
+ *                             normal result, and the process waits to be killed (its threads are stuck inside libdbus)
  * The harness is the "main loop": it installs timeout functions and calls dbus_timeout_handle when an
  * enabled timeout's interval has elapsed.  After all threads finished, the main thread keeps pumping
  * until min_run_ms have passed and every call that must complete (not cancelled; finite timeout or
@@ -34,6 +42,7 @@
 #include <errno.h>
 
 #define MAX_CALLS 64
+#define MAX_THREADS 6
 #define MAX_OPS 1024
 #define MAX_EV 16384
 #define MAX_TIMEOUTS 256
@@ -51,6 +60,9 @@ typedef struct
   _Atomic int stolen;
   _Atomic int cancelled;
   _Atomic int notify_steal;
+  _Atomic int blk;                  /* blocking wait (B / W) on this call: 0 none, 1 entered, 2 returned */
+  _Atomic int blk_tid;
+  _Atomic long long blk_beg_us, blk_end_us;
 } Call;
 
 typedef struct { int tid; char code; long a, b, c; } Op;
@@ -83,6 +95,9 @@ static _Atomic long n_timer_fired;
 static _Atomic int n_timer_lost;
 static long long t0_us;
 static __thread int my_tid;
+static _Atomic long long first_return_us;   /* when the first blocking wait of this case returned (absolute), 0 = none yet */
+static _Atomic int n_threads_done;          /* threads other than 0 that have finished their ops */
+static int cur_nthreads, cur_ncalls;
 
 static long long
 now_us (void)
@@ -295,6 +310,52 @@ wait_call (int idx, char code)
 }
 
 static void
+blk_enter (Call *c)
+{
+  atomic_store (&c->blk_tid, my_tid);
+  atomic_store (&c->blk_beg_us, now_us ());
+  atomic_store (&c->blk, 1);
+}
+
+static void
+blk_leave (Call *c)
+{
+  long long now = now_us (), none = 0;
+  atomic_store (&c->blk_end_us, now);
+  atomic_store (&c->blk, 2);
+  atomic_compare_exchange_strong (&first_return_us, &none, now);
+}
+
+/* Multi-blocker watch expired: say which blocking waits have not returned and wait to be killed.  Nothing here touches
+ * the event log (threads stuck inside libdbus may have written to it without any ordering we could rely on); only the
+ * per-call atomics are read. */
+static void
+report_stuck (long watch_ms, long polls)
+{
+  int i, first = 1;
+  long long now = now_us ();
+  printf ("{\"mb_stuck\":1,\"watch_ms\":%ld,\"polls\":%ld,\"t0_us\":%lld,\"first_return_us\":%lld,\"now_us\":%lld,\"threads_done\":%d,\"nthreads\":%d,\"blockers\":[",
+          watch_ms, polls, t0_us, atomic_load (&first_return_us) - t0_us, now - t0_us, atomic_load (&n_threads_done), cur_nthreads);
+  for (i = 0; i < cur_ncalls; i++)
+    {
+      Call *c = &calls[i];
+      int b = atomic_load (&c->blk), done = -1;
+      if (b == 0) continue;
+      if (atomic_load (&c->state) == ST_LIVE && c->pc != NULL)
+        done = dbus_pending_call_get_completed (c->pc);
+      printf ("%s{\"c\":%d,\"tid\":%d,\"timeout\":%d,\"blk\":%d,\"beg_us\":%lld,\"end_us\":%lld,\"completed\":%d}",
+              first ? "" : ",", i, atomic_load (&c->blk_tid), c->timeout_ms, b, atomic_load (&c->blk_beg_us) - t0_us,
+              b == 2 ? atomic_load (&c->blk_end_us) - t0_us : -1LL, done);
+      first = 0;
+    }
+  fputs ("]}\n", stdout);
+  fflush (stdout);
+  /* the Python side kills us (after taking the stacks); do not stay around for ever if it is gone */
+  sleep (90);
+  _exit (0);
+}
+
+static void
 exec_op (const Op *o)
 {
   Ev *e;
@@ -340,7 +401,9 @@ exec_op (const Op *o)
       if ((c = wait_call ((int) o->a, 'B')) != NULL)
         {
           ev_new ("bbeg", c->idx);
+          blk_enter (c);
           dbus_pending_call_block (c->pc);
+          blk_leave (c);
           e = ev_new ("bend", c->idx);
           e->a = dbus_pending_call_get_completed (c->pc);
         }
@@ -364,7 +427,10 @@ exec_op (const Op *o)
         dbus_error_init (&err);
         e = ev_new ("wbeg", (int) o->a);
         e->b = o->b;
+        calls[o->a].timeout_ms = (int) o->b;
+        blk_enter (&calls[o->a]);
         r = dbus_connection_send_with_reply_and_block (conn, m, (int) o->b, &err);
+        blk_leave (&calls[o->a]);
         e = ev_new ("wend", (int) o->a);
         e->a = dbus_message_get_serial (m);
         e->b = o->b;
@@ -410,6 +476,41 @@ exec_op (const Op *o)
     case 'Z':
       usleep ((useconds_t) o->a);
       break;
+    case 'A':
+      {
+        long spins = 0;
+        int i, n;
+        for (;;)
+          {
+            for (i = 0, n = 0; i < cur_ncalls; i++)
+              if (atomic_load (&calls[i].state) != ST_EMPTY) n++;
+            if (n >= o->a && (!o->b || dbus_connection_get_dispatch_status (conn) == DBUS_DISPATCH_DATA_REMAINS)) break;
+            if (spins++ > 200000) { e = ev_new ("skip", -1); e->a = 'A'; e->b = n; break; }
+            usleep (50);
+          }
+        break;
+      }
+    case 'J':
+      {
+        /* The deadline is in wall time AND in this thread's own progress (it must itself have been scheduled
+         * watch_ms/4 times since the first return), so a stall of the whole process cannot expire it. */
+        long polls = 0;
+        for (;;)
+          {
+            long long first;
+            if (atomic_load (&n_threads_done) >= cur_nthreads - 1) break;
+            first = atomic_load (&first_return_us);
+            if (first != 0)
+              {
+                polls++;
+                if (now_us () - first >= o->a * 1000LL && polls >= o->a / 4
+                    && atomic_load (&n_threads_done) < cur_nthreads - 1)
+                  report_stuck (o->a, polls);
+              }
+            usleep (2000);
+          }
+        break;
+      }
     default:
       break;
     }
@@ -442,7 +543,7 @@ thread_main (void *arg)
   for (i = 0; i < n_ops; i++)
     if (ops[i].tid == tid)
       {
-        if (timer_gate && ops[i].code != 'F' && ops[i].code != 'Z')
+        if (timer_gate && ops[i].code != 'F' && ops[i].code != 'Z' && ops[i].code != 'J')
           {
             pthread_rwlock_rdlock (&gate);
             exec_op (&ops[i]);
@@ -452,6 +553,7 @@ thread_main (void *arg)
         else
           exec_op (&ops[i]);
       }
+  if (tid != 0) atomic_fetch_add (&n_threads_done, 1);
   return NULL;
 }
 
@@ -477,7 +579,7 @@ parse_ops (char *s)
   for (tok = strtok_r (s, ";", &save); tok != NULL && n_ops < MAX_OPS; tok = strtok_r (NULL, ";", &save))
     {
       Op *o = &ops[n_ops];
-      if (tok[0] < '0' || tok[0] > '3' || tok[1] == 0) return 0;
+      if (tok[0] < '0' || tok[0] >= '0' + MAX_THREADS || tok[1] == 0) return 0;
       o->tid = tok[0] - '0';
       o->code = tok[1];
       o->a = o->b = o->c = 0;
@@ -501,14 +603,14 @@ int main (int argc, char **argv)
   while ((line = hc_readline ()) != NULL)
     {
       int nthreads = 1, n_calls = 0, min_run_ms = 0, drain_ms = 3000, off = 0, i, guard;
-      pthread_t th[4];
+      pthread_t th[MAX_THREADS];
       DBusError err;
       int drain_timeout = 0, disconnected, left = 0, n, quiescent = 0, fin_done = 0;
       DBusPendingCall *fin = NULL;
       long long t_script_end;
 
       if (sscanf (line, "%d %d %d %d %n", &nthreads, &n_calls, &min_run_ms, &drain_ms, &off) < 4
-          || nthreads < 1 || nthreads > 4 || n_calls < 0 || n_calls > MAX_CALLS || !parse_ops (line + off))
+          || nthreads < 1 || nthreads > MAX_THREADS || n_calls < 0 || n_calls > MAX_CALLS || !parse_ops (line + off))
         { printf ("{\"bad_input\":1}\n"); fflush (stdout); free (line); continue; }
 
       memset (calls, 0, sizeof calls);
@@ -518,6 +620,10 @@ int main (int argc, char **argv)
       atomic_store (&phase, 0);
       atomic_store (&n_timer_fired, 0);
       atomic_store (&n_timer_lost, 0);
+      atomic_store (&first_return_us, 0);
+      atomic_store (&n_threads_done, 0);
+      cur_nthreads = nthreads;
+      cur_ncalls = n_calls;
       my_tid = 0;
 
       dbus_error_init (&err);
@@ -607,8 +713,8 @@ int main (int argc, char **argv)
         dbus_connection_dispatch (conn);
       disconnected = !dbus_connection_get_is_connected (conn);
 
-      printf ("{\"timer_gate\":%d,\"fin\":%d,\"drain_timeout\":%d,\"quiescent\":%d,\"left\":%d,\"disconnected\":%d,\"timers_fired\":%ld,\"timer_remove_unknown\":%d,\"run_ms\":%ld,\"calls\":[",
-              timer_gate, fin_done, drain_timeout, quiescent, left, disconnected, (long) atomic_load (&n_timer_fired), atomic_load (&n_timer_lost),
+      printf ("{\"t0_us\":%lld,\"timer_gate\":%d,\"fin\":%d,\"drain_timeout\":%d,\"quiescent\":%d,\"left\":%d,\"disconnected\":%d,\"timers_fired\":%ld,\"timer_remove_unknown\":%d,\"run_ms\":%ld,\"calls\":[",
+              t0_us, timer_gate, fin_done, drain_timeout, quiescent, left, disconnected, (long) atomic_load (&n_timer_fired), atomic_load (&n_timer_lost),
               (long) ((now_us () - t0_us) / 1000));
       for (i = 0; i < n_calls; i++)
         {
